@@ -115,7 +115,7 @@ func main() {
 		for _, id := range ids {
 			starts[id] = time.Now()
 			c := newCtx(w, id, *tier, "default")
-			props[id].Run(c)
+			runProp(props[id], c)
 			c.checkFloors()
 			ctxs[id] = &runResult{ctxs: []*Ctx{c}}
 		}
@@ -124,7 +124,7 @@ func main() {
 				w2 := Load(*repo, cf[0], cf[1])
 				for _, id := range ids {
 					c := newCtx(w2, id, *tier, cf[0]+"/"+cf[1])
-					props[id].Run(c)
+					runProp(props[id], c)
 					c.checkFloors()
 					ctxs[id].ctxs = append(ctxs[id].ctxs, c)
 				}
@@ -152,6 +152,28 @@ func main() {
 }
 
 var tStart = time.Now()
+
+// runProp runs the rules of one property. A construct the rules are anchored in that can no
+// longer be found (removed, not renamed: renames are followed) is a violation of THIS property
+// — the mechanism the property rests on is gone or was replaced by something the rules do not
+// know, so the property cannot be shown — and not an analysis failure of the whole run.
+func runProp(p *propDef, c *Ctx) {
+	defer func() {
+		r := recover()
+		if r == nil {
+			return
+		}
+		af, ok := r.(analysisFailure)
+		if !ok || !strings.HasPrefix(af.msg, "anchor unresolved: ") {
+			panic(r)
+		}
+		what := strings.TrimPrefix(af.msg, "anchor unresolved: ")
+		rule := c.Prop + ".anchor"
+		c.Rule(rule, "every function, field, type and constant the rules of this property are anchored in exists on the current tree (followed through renames)", 0)
+		c.Bad(rule, "-", what, "-", "anchor gone: "+what+" no longer exists (and nothing structurally equivalent took its place): the mechanism this property rests on was removed or replaced, the remaining rules could not be evaluated")
+	}()
+	p.Run(c)
+}
 
 func isFlagSet(name string) bool {
 	set := false
@@ -188,7 +210,7 @@ func doExplain(path, repo, verif string) int {
 	}
 	w := Load(repo, goos, goarch)
 	c := newCtx(w, v.Property, "quick", v.Config)
-	p.Run(c)
+	runProp(p, c)
 	c.checkFloors()
 	for _, o := range c.Obls {
 		if o.Key == v.Key {
